@@ -20,3 +20,15 @@ impl Shell {
     #[verifier::external_body]
     pub fn replace_open_files(&mut self, fds: FdList) ensures final(self).persistent@ == fds.m@, final(self).rest == old(self).rest { unimplemented!() }
 }
+// ---- the head of ExecCommand::execute: what happens before the process is replaced
+pub struct ExecCommand { pub name_for_argv0: Option<String>, pub empty_environment: bool, pub exec_as_login: bool, pub args: Vec<String> }   // the real fields (checked)
+impl Shell { #[verifier::external_body] pub fn is_subshell(&self) -> (r: bool) { unimplemented!() } }
+pub mod brush_core { pub mod error { use vstd::prelude::*;
+    #[verifier::external_body] pub fn unimp<T>(msg: &'static str) -> (r: Result<T, super::super::Error>) ensures r is Err { unimplemented!() }
+} }
+// R14: building a CommandCommand from the arguments and running it (delegation to the `command` builtin in a subshell); result abstract
+#[verifier::external_body]
+pub fn vx_delegate_to_command(self_: &ExecCommand, context: &mut ExecutionContext) -> (r: Result<ExecutionResult, Error>) { unimplemented!() }
+// the slice ends where the original goes on to replace the process
+#[verifier::external_body]
+pub fn vx_goes_on_to_replace_the_process() -> (r: ExecutionResult) { unimplemented!() }
